@@ -189,15 +189,15 @@ headers, kinds of statements and the names they bind) they had when the model wa
 loop, early exit or rebinding has been added that the model does not describe -/
 theorem modelled_functions_have_the_transcribed_shape :
     MlVerif.Gen.C12.shapeDigitize2tree =
-      "if(not right){raise};ascending=;if(not ascending){bins2=;cl=;n=;for(i in range(cl.tree_.value.shape[0])){cl.tree_.value[]=};return};tree=;values=;UNUSED=;n_nodes=;def add_root{assert;parent=;is_left=;is_leaf=;threshold=;n=;call append;call append;return};def add_nodes{if(is_left){if(i == j){n=;call append;call append;return};if(i + 1 == j){call append;th=;n=;call append;call add_nodes;call add_nodes;return};if(i + 1 < j){call append;index=;th=;n=;call append;call add_nodes;call add_nodes;return}}else{if(i + 1 == j){call append;n=;call append;return};if(i + 1 < j){call append;index=;th=;n=;call append;call add_nodes;call add_nodes;return}};raise};index=;call add_root;call add_nodes;call add_nodes;cl=;cl.tree_=;cl.tree_.value[]=;cl.n_outputs=;cl.n_outputs_=;cl.n_features_in_=;return" ∧
+      "sig(bins, right=False)|if not right: raise RuntimeError(f'right must be True not right={right!r}') ; ascending = len(bins) <= 1 or bins[0] < bins[1] ; if not ascending: bins2 = bins[::-1] cl = digitize2tree(bins2, right=right) n = len(bins) for i in range(cl.tree_.value.shape[0]): cl.tree_.value[i, 0, 0] = n - cl.tree_.value[i, 0, 0] return cl ; tree = Tree(1, numpy.array([1], dtype=numpy.intp), 1) ; values = [] ; UNUSED = numpy.nan ; n_nodes = [] ; def add_root(index): assert index >= 0 and index < len(bins), 'Unexpected index %d / len(bins)=%d.' % (index, len(bins)) parent = -1 is_left = False is_leaf = False threshold = bins[index] n = tree_add_node(tree, parent, is_left, is_leaf, 0, threshold, 0, 1, 1.0, 0) values.append(UNUSED) n_nodes.append(n) return n ; def add_nodes(parent, i, j, is_left): if is_left: if i == j: n = tree_add_node(tree, parent, is_left, True, 0, 0, 0, 1, 1.0, 0) n_nodes.append(n) values.append(i) return n if i + 1 == j: values.append(UNUSED) th = bins[i] n = tree_add_node(tree, parent, is_left, False, 0, th, 0, 1, 1.0, 0) n_nodes.append(n) add_nodes(n, i, i, True) add_nodes(n, i, j, False) return n if i + 1 < j: values.append(UNUSED) index = (i + j) // 2 th = bins[index] n = tree_add_node(tree, parent, is_left, False, 0, th, 0, 1, 1.0, 0) n_nodes.append(n) add_nodes(n, i, index, True) add_nodes(n, index, j, False) return n else: if i + 1 == j: values.append(j) n = tree_add_node(tree, parent, is_left, True, 0, 0, 0, 1, 1.0, 0) n_nodes.append(n) return n if i + 1 < j: values.append(UNUSED) index = (i + j) // 2 th = bins[index] n = tree_add_node(tree, parent, is_left, False, 0, th, 0, 1, 1.0, 0) n_nodes.append(n) add_nodes(n, i, index, True) add_nodes(n, index, j, False) return n raise NotImplementedError(f'Unexpected case where i={i!r}, j={j!r}, is_left={is_left!r}.') ; index = len(bins) // 2 ; add_root(index) ; add_nodes(0, 0, index, True) ; add_nodes(0, index, len(bins), False) ; cl = DecisionTreeRegressor() ; cl.tree_ = tree ; cl.tree_.value[:, 0, 0] = numpy.array(values, dtype=numpy.float64) ; cl.n_outputs = 1 ; cl.n_outputs_ = 1 ; cl.n_features_in_ = 1 ; return cl" ∧
     MlVerif.Gen.C12.shapeTreeLeaveIndex =
-      "tree=;res=;for(i in range(tree.node_count)){if(tree.children_left[i] == TREE_LEAF){call append}};return" ∧
+      "sig(model)|tree = _get_tree(model) ; res = [] ; for i in range(tree.node_count): if tree.children_left[i] == TREE_LEAF: res.append(i) ; return res" ∧
     MlVerif.Gen.C12.shapeTreeNodeRange =
-      "tree=;if(parents is None){parents=};path=;res=;for((ind,p) in enumerate(path)){if(p == i){break};fn=;lr=;th=;if(lr){res[]=}else{res[]=}};return" ∧
+      "sig(tree, i, parents=None)|tree=;if(parents is None){parents=};path=;res=;for((ind,p) in enumerate(path)){if(p == i){break};fn=;lr=;th=;if(lr){res[]=}else{res[]=}};return" ∧
     MlVerif.Gen.C12.shapePredictLeaves =
-      "if(hasattr(model, 'get_leaves_index')){leaves_index=}else{leaves_index=};leaves=;leaves=;mat=;res=;res=;return" ∧
+      "sig(model, X)|if hasattr(model, 'get_leaves_index'): leaves_index = model.get_leaves_index() else: leaves_index = [i for i in range(len(model.tree_.children_left)) if model.tree_.children_left[i] == TREE_LEAF] ; leaves = model.decision_path(X) ; leaves = leaves[:, leaves_index] ; mat = numpy.argmax(leaves, 1) ; res = numpy.asarray(mat).ravel() ; res = numpy.array([leaves_index[r] for r in res]) ; return res" ∧
     MlVerif.Gen.C12.shapeTreeNodeParents =
-      "tree=;parents=;for(i in range(tree.node_count)){if(tree.children_left[i] == TREE_LEAF){continue};parents[]=;parents[]=};return" :=
+      "sig(tree)|tree=;parents=;for(i in range(tree.node_count)){if(tree.children_left[i] == TREE_LEAF){continue};parents[]=;parents[]=};return" :=
   ⟨rfl, rfl, rfl, rfl, rfl⟩
 
 /-! ### non-vacuity: concrete instances satisfying the hypotheses -/
